@@ -47,8 +47,9 @@ def user_fv(fn, maxcalls=None):
 
 def calls(st): return [e for e in st.events if e[0] == 'call']
 
-def run(fname, args, intercept, pre=(), limits=None, merge_pure=True, resolve_selects=False):
+def run(fname, args, intercept, pre=(), limits=None, merge_pure=True, resolve_selects=False, havoc=None):
     it = Interp(G['m'], intercept=intercept, limits=limits, merge_pure=merge_pure, resolve_selects=resolve_selects); st = it.new_state(); st.pc += list(pre)
+    if havoc: it.havoc.update(havoc)
     args = [a(st) if callable(a) else a for a in args]
     return it, it.execute(fname, args, st)
 
